@@ -1,3 +1,4 @@
+mod falsify;
 mod gen;
 mod json;
 mod model;
@@ -46,6 +47,10 @@ fn refine(args: &[String]) {
     let steps: u64 = arg(args, "--steps", "200").parse().unwrap();
     let model_path = arg(args, "--model", "/verif/coq/extracted/model_driver");
     let max_report: usize = arg(args, "--max-report", "5").parse().unwrap();
+    let coq_sample: usize = arg(args, "--coq-sample", "0").parse().unwrap();
+    let coq_out = arg(args, "--coq-out", "");
+    let first_history: u64 = arg(args, "--first-history", "0").parse().unwrap();
+    let mut coq_cases: Vec<String> = vec![];
     let mut model = Model::new(&model_path);
     let mut by_kind: BTreeMap<&'static str, u64> = BTreeMap::new();
     let mut by_outcome: BTreeMap<String, u64> = BTreeMap::new();
@@ -56,7 +61,7 @@ fn refine(args: &[String]) {
     let mut n_mismatch = 0u64;
     let mut diff_hist: BTreeMap<String, u64> = BTreeMap::new();
     let mut samples: Vec<J> = vec![];
-    for h in 0..histories {
+    for h in first_history..first_history + histories {
         let mut g = G::new(seed.wrapping_mul(1_000_003).wrapping_add(h));
         let cfg = gen_cfg(&mut g);
         let id = VId { a: 9, g: 1 + g.below(2) as u16, k: g.below(4) as u8, pad: if g.chance(80) { 0 } else { 2 } };
@@ -76,7 +81,7 @@ fn refine(args: &[String]) {
             let ok = match &rep.outcome {
                 Outcome::Done | Outcome::DoneBool(_) => "ok".to_string(),
                 Outcome::Failed(e) => format!("err.{}", ERR_NAMES[*e as usize]),
-                Outcome::Panicked(_) => "panic".to_string(),
+                Outcome::Panicked(_) => format!("panic.{:?}@{}", rep.model_outcome, input.kind()),
             };
             *by_outcome.entry(ok).or_default() += 1;
             let mut hs = DefaultHasher::new();
@@ -94,6 +99,15 @@ fn refine(args: &[String]) {
                     ("effects", J::s(format!("{:?}", rep.effects))),
                 ]));
             }
+            if coq_cases.len() < coq_sample
+                && rep.request.len() < 3000
+                && rep.model_output.len() < 3000
+                && (total % 37 == 1 || !rep.answers.is_empty() && total % 5 == 1)
+            {
+                let l = |v: &[u128]| v.iter().map(|x| x.to_string()).collect::<Vec<_>>().join(";");
+                let ans = rep.answers.iter().map(|(_, a)| format!("[{}]", l(a))).collect::<Vec<_>>().join(";");
+                coq_cases.push(format!("([{}], [{}], [{}])", l(&rep.request), ans, l(&rep.model_output)));
+            }
             if !rep.diffs.is_empty() {
                 n_mismatch += 1;
                 for d in &rep.diffs {
@@ -108,8 +122,15 @@ fn refine(args: &[String]) {
             }
         }
     }
+    if !coq_out.is_empty() {
+        let mut v = String::from("(* generated by the harness: steps the extracted model answered, re-evaluated inside Coq *)\nFrom Foca Require Import Ser.\nOpen Scope N_scope.\nDefinition cases : list (list N * list (list N) * list N) := [\n");
+        v.push_str(&coq_cases.join(";\n"));
+        v.push_str("\n].\nDefinition ok (c : list N * list (list N) * list N) : bool :=\n  let '(i, a, o) := c in list_eqb N.eqb (run_step_ser (list_oracle a) i) o.\nEval vm_compute in (forallb ok cases, length cases).\n");
+        std::fs::write(&coq_out, v).unwrap();
+    }
     let out = J::obj(vec![
         ("steps", J::n(total)),
+        ("coq_cases", J::n(coq_cases.len())),
         ("distinct_states", J::n(states.len())),
         ("oracle_questions", J::n(oracle_q)),
         ("by_input_kind", J::O(by_kind.iter().map(|(k, v)| (k.to_string(), J::n(*v))).collect())),
@@ -127,6 +148,18 @@ fn main() {
     let args: Vec<String> = std::env::args().collect();
     match args.get(1).map(|s| s.as_str()) {
         Some("refine") => refine(&args[2..]),
+        Some("falsify") => {
+            let prop = args.get(2).cloned().unwrap_or_default();
+            let seed: u64 = arg(&args, "--seed", "1").parse().unwrap();
+            let budget: u64 = arg(&args, "--budget", "100").parse().unwrap();
+            match falsify::run(&prop, seed, budget) {
+                Some(o) => println!("{}", o.to_json().to_string()),
+                None => {
+                    eprintln!("no falsifier for {prop}");
+                    std::process::exit(2);
+                }
+            }
+        }
         _ => {
             eprintln!("usage: harness refine --seed N --histories H --steps L");
             std::process::exit(2);
